@@ -12,12 +12,13 @@ PRIOS = ("QUERY", "INTERACTIVE", "BATCH_PIPELINE")
 def gen(r, algo=None, focus=None, tier="quick", offgrid=False):
     if algo is None:
         algo = r.choice(["naive", "priority", "priority-pool", "overbook", "template"])
-    tps = r.choice([1, 1, 2, 2, 3, 5, 10, 10, 20, 100, 1000] if r.random() < 0.9 else [7, 16, 250, 10 ** 4, 10 ** 5])
+    tps = r.choice([1, 1, 2, 2, 3, 5, 10, 10, 20, 100, 1000] if r.random() < 0.9 else
+                   [7, 16, 250, 10 ** 4, 10 ** 5, 3000, 99999, r.randint(2, 1000), r.randint(1000, 10 ** 5)])
     nticks = r.randint(10, 300) if r.random() < 0.9 else r.randint(1, 12)
     pools = 2 if algo == "priority-pool" else r.choice([1, 1, 2, 2, 3, 4])
     cpus = r.choice([1, 1, 2, 4, 8, 10, 16, 64])
     if r.random() < 0.06:
-        cpus = r.choice([1.5, 2.5, 12.5, 20.5])      # nothing in the package requires whole CPUs per pool
+        cpus = r.choice([1.5, 2.5, 12.5, 20.5, 10 / 3, 7 / 3])      # nothing in the package requires whole CPUs per pool
     unit = F(20, tps)
     mode = r.random()
     if mode < 0.55:
@@ -26,7 +27,7 @@ def gen(r, algo=None, focus=None, tier="quick", offgrid=False):
         if r.random() < 0.4:
             ram += F(r.choice([1, 3, 7]), 10) * unit
     else:
-        ram = F(r.choice(["0.25", "0.5", "1", "3.3", "8", "10.3", "16", "64", "256", "1000"]))
+        ram = F(r.choice(["0.25", "0.5", "1", "3.3", "8", "10.3", "16", "64", "256", "1000", "1/3", "100/3", "0.125", "0.375"]))
     multi = r.random() < 0.6
     if focus == "C17":
         # naive hands out whole pools: failures need operators larger than a pool, and the
@@ -49,6 +50,8 @@ def gen(r, algo=None, focus=None, tier="quick", offgrid=False):
         multi = int(multi)        # flags given as 0 / 1 (any falsy / truthy value selects the mode)
     cfg = {"algo": algo, "tps": tps, "duration": duration, "pools": pools, "cpus": cpus,
            "ram": float(ram) if ram.denominator != 1 else int(ram), "multi": multi, "over": over}
+    if r.random() < 0.05:
+        cfg["tps_float"] = True   # ticks_per_second = 10.0 in a parameter file is the same rate
     pipes = gen_pipes(r, nticks, tps, ram, focus, offgrid=offgrid)
     if r.random() < 0.02 and nticks > 0 and dk < 0.8:
         # thousands of idle ticks before anything arrives
@@ -229,12 +232,12 @@ def gen_uncontended(r, tier="quick"):
         # however much is read
         for o in ops:
             for sg in o["segs"]:
-                sg[2] = r.choice(["0", "0", "0.5", "2"])
+                sg[2] = r.choice(["0", "0", "0.5", "2", "2.2"])
                 if r.random() < 0.5:
                     sg[3] = fstr((F(r.choice([2, 5, 9])) + F(r.choice([13, 50, 87]), 100)) * unit)
-        ram = r.choice([3, 2.5, 4])
+        ram = r.choice([3, 2.5, 4, 2.75])
     cfg = {"algo": algo, "tps": tps, "duration": float(F(at + total + r.randint(3, 10), tps)),
-           "pools": 2 if algo == "priority-pool" else 1, "cpus": r.choice([1, 2, 4, 10, 16, 64]), "ram": ram,
+           "pools": 2 if algo == "priority-pool" else 1, "cpus": r.choice([1, 2, 4, 10, 16, 64, 1.5, 2.5, 12.5]), "ram": ram,
            "multi": True if algo == "priority-pool" else r.random() < 0.5, "over": algo == "overbook"}
     prio = r.choice(PRIOS)
     return {"kind": "sys", "cfg": cfg, "pipes": [{"prio": prio, "at": at, "id": "p1", "ops": ops}]}
